@@ -982,6 +982,7 @@ func independentReaders(round int, s *Stats) error {
 		}
 	}
 	errs := make([]error, len(cases))
+	renders := make([][]string, len(cases))
 	var wg sync.WaitGroup
 	start := make(chan struct{})
 	for i := range cases {
@@ -991,8 +992,12 @@ func independentReaders(round int, s *Stats) error {
 			defer wg.Done()
 			<-start
 			for rep := 0; rep < 3 && errs[i] == nil; rep++ {
-				errs[i] = guard("lookup on a trie that only this goroutine uses, while other goroutines read their own tries", func() error {
-					return readOwnTrie(tries[i], cases[i], models[i])
+				errs[i] = guard("lookup or String() on a trie that only this goroutine uses, while other goroutines read their own tries", func() error {
+					if err := readOwnTrie(tries[i], cases[i], models[i]); err != nil {
+						return err
+					}
+					renders[i] = append(renders[i], tries[i].String())
+					return nil
 				})
 			}
 		}()
@@ -1002,6 +1007,20 @@ func independentReaders(round int, s *Stats) error {
 	for _, e := range errs {
 		if e != nil {
 			return e
+		}
+	}
+	// String() is a function of the trie: the renderings made while other goroutines
+	// rendered their own tries must equal the one made now, alone (C19-h)
+	for i := range cases {
+		i := i
+		var alone string
+		if err := guard("String()", func() error { alone = tries[i].String(); return nil }); err != nil {
+			return err
+		}
+		for _, r := range renders[i] {
+			if r != alone {
+				return viol("render", "String() of a trie that only one goroutine uses differs from its rendering alone when other goroutines render their own tries at the same time (%d vs %d bytes)", len(r), len(alone))
+			}
 		}
 	}
 	s.doneHash(uint64(round)+1<<40, true)
